@@ -39,6 +39,7 @@ class Ctx:
         self.counters = collections.Counter()
         self.nontrivial = set()
         self.sets = collections.defaultdict(set)  # named sets of hashed observations, merged by union across shards
+        self.names = collections.defaultdict(set)  # named sets of short strings kept verbatim (e.g. repository functions entered)
         self.samples = []
         self.failures = []
         self.nfail = 0
@@ -116,6 +117,7 @@ class Ctx:
             "counters": dict(self.counters),
             "nontrivial": sorted(self.nontrivial),
             "sets": {k: sorted(v) for k, v in self.sets.items()},
+            "names": {k: sorted(v) for k, v in self.names.items()},
             "samples": self.samples,
             "failures": self.failures,
             "nfail": self.nfail,
@@ -134,6 +136,8 @@ class Ctx:
         self.nontrivial.update(d["nontrivial"])
         for k, v in d.get("sets", {}).items():
             self.sets[k].update(v)
+        for k, v in d.get("names", {}).items():
+            self.names[k].update(v)
         for s in d["samples"]:
             if len(self.samples) < MAX_SAMPLES:
                 self.samples.append(s)
